@@ -146,6 +146,13 @@ namespace Track
   enum class DecodeState { LookingForAddress, LookingForRecord };
   Sector sec;
   int sec_size;
+  // A floppy disc controller only accepts a data address mark which
+  // turns up within 30 byte times of the end of the sector ID (gap 2
+  // is 11 bytes and the sync field 6 bytes).  A mark further away
+  // than that belongs to some other sector whose ID we could not
+  // read.  The limit is in bits and allows for the mark itself.
+  constexpr size_t max_id_to_data_mark_bits = (30u + 2u) * 16u;
+  size_t id_end = 0;
   enum DecodeState state = DecodeState::LookingForAddress;
   while (thisbit < bits_avail)
     {
@@ -230,6 +237,7 @@ namespace Track
 	    }
 	  // id[5] and id[6] are the CRC bytes, and these already got
 	  // included in our evaluation of addr_crc.
+	  id_end = thisbit;
 	  state = DecodeState::LookingForRecord;
 	}
       else if (state == DecodeState::LookingForRecord)
@@ -257,6 +265,16 @@ namespace Track
 	    }
 	  if (!found)
 	    break;
+	  if (thisbit - id_end > max_id_to_data_mark_bits)
+	    {
+	      if (verbose)
+		{
+		  std::cerr << "The next record is too far from the ID of sector "
+			    << sec.address << " to belong to it\n";
+		}
+	      state = DecodeState::LookingForAddress;
+	      continue;
+	    }
 	  const bool discard_record = *found == 0xF56A;
 	  if (verbose)
 	    {
